@@ -249,7 +249,9 @@ pub fn apply(s: &Snapshot, uni: &Uni, w: &World, lib: &Lib, model: &mut Model, a
 				},
 			}
 		}
-		if let Some(off) = now {
+		// Library quirk (not part of the property): a snapshot without any update entry returns right
+		// after the announcements; neither the sync timestamp is recorded nor the pruning run.
+		if let (Some(off), false) = (now, upds.is_empty()) {
 			model.prune(off);
 		}
 	}
@@ -257,7 +259,7 @@ pub fn apply(s: &Snapshot, uni: &Uni, w: &World, lib: &Lib, model: &mut Model, a
 		return Err(Failure::new("rgs", format!("{}: snapshot with latest_seen={} now={:?}: library returned {:?}, reference expects {}", at, latest, now, res.as_ref().map_err(|_| "Err"), if too_old { "refusal (older than two weeks)" } else { "success" }))
 			.with_key("rgs/result"));
 	}
-	if !too_old && lib.g.get_last_rapid_gossip_sync_timestamp() != Some(latest) {
+	if !too_old && !upds.is_empty() && lib.g.get_last_rapid_gossip_sync_timestamp() != Some(latest) {
 		return Err(Failure::new("rgs", format!("{}: last_rapid_gossip_sync_timestamp is {:?}, expected {}", at, lib.g.get_last_rapid_gossip_sync_timestamp(), latest)).with_key("rgs/last-sync-timestamp"));
 	}
 	Ok(())
